@@ -11,10 +11,24 @@ use std::time::Duration;
 use tonic::transport::channel::Change;
 use tonic::transport::{Channel, Endpoint};
 
-struct Srv { id: u8, port: u16, rt: Option<tokio::runtime::Runtime> }
+struct Srv { id: u8, port: u16, rt: Option<tokio::runtime::Runtime>,
+    /// Some(path): this server listens on a unix domain socket instead of a TCP port
+    uds: Option<String> }
 
 fn start(s: &mut Srv, log: &Rec) -> bool {
     let rt = tokio::runtime::Builder::new_multi_thread().worker_threads(1).enable_all().build().unwrap();
+    if let Some(path) = s.uds.clone() {
+        let _ = std::fs::remove_file(&path);
+        let stim = json!({"server":{"send":[],"accept":[]},"script":{"init_meta":[],"msgs":[[s.id]],"end":{"ok":true},"fail_before":false,"no_compress":false}});
+        let svc = build_server(&stim, &Rec::default());
+        let l = { let _g = rt.enter(); match tokio::net::UnixListener::bind(&path) { Ok(l) => l, Err(_) => return false } };
+        rt.spawn(async move {
+            let incoming = tokio_stream::wrappers::UnixListenerStream::new(l);
+            let _ = tonic::transport::Server::builder().add_service(svc).serve_with_incoming(incoming).await;
+        });
+        s.rt = Some(rt);
+        return true;
+    }
     let addr: std::net::SocketAddr = format!("127.0.0.1:{}", s.port).parse().unwrap();
     let mut listener = None;
     for _ in 0..50 {
@@ -34,7 +48,7 @@ fn start(s: &mut Srv, log: &Rec) -> bool {
     s.rt = Some(rt);
     true
 }
-fn stop(s: &mut Srv) { if let Some(rt) = s.rt.take() { rt.shutdown_timeout(Duration::from_millis(500)); } }
+fn stop(s: &mut Srv) { if let Some(rt) = s.rt.take() { rt.shutdown_timeout(Duration::from_millis(500)); } if let Some(p) = &s.uds { let _ = std::fs::remove_file(p); } }
 
 pub fn run(stim: &Value, rec: &Rec) {
     let names: Vec<String> = stim["servers"].as_array().cloned().unwrap_or_default().iter().map(|v| v.as_str().unwrap_or("").to_string()).collect();
@@ -42,7 +56,9 @@ pub fn run(stim: &Value, rec: &Rec) {
     let mut srvs: HashMap<String, Srv> = HashMap::new();
     // every server gets its port by binding once, so that a server that is down still has an address that refuses connections
     for (i, n) in names.iter().enumerate() {
-        let mut s = Srv { id: i as u8 + 1, port: 0, rt: None };
+        // stim.uds: the servers listen on unix domain sockets (fresh paths under the system temp directory)
+        let uds = if stim["uds"].as_bool().unwrap_or(false) { Some(format!("{}/vh-uds-{}-{}-{}.sock", std::env::temp_dir().display(), std::process::id(), stim["run_tag"].as_u64().unwrap_or(0), n)) } else { None };
+        let mut s = Srv { id: i as u8 + 1, port: 0, rt: None, uds };
         if !start(&mut s, rec) { rec.ev(json!({"e":"lab_error","what":"bind"})); return; }
         if !up0.contains(n) { stop(&mut s); }
         srvs.insert(n.clone(), s);
@@ -52,11 +68,18 @@ pub fn run(stim: &Value, rec: &Rec) {
     let stim_list: Option<Vec<String>> = stim["list"].as_array().map(|a| a.iter().filter_map(|x| x.as_str().map(|s| s.to_string())).collect());
     let rt = tokio::runtime::Builder::new_current_thread().enable_all().build().unwrap();
     let log = rec.clone();
+    let stim_uds_srv: String = names.first().cloned().unwrap_or_default();
+    let stim_uds: Option<String> = srvs.get(&stim_uds_srv).and_then(|s| s.uds.clone());
     let srvs_cell = std::sync::Arc::new(std::sync::Mutex::new(srvs));
     let sc = srvs_cell.clone();
     rt.block_on(async move {
         // stim.list: the endpoints are given up front to Channel::balance_list (keys k1, k2 in the trace); otherwise balance_channel
-        let (ch, tx) = if let Some(list) = stim_list.as_ref() {
+        let (ch, tx) = if let Some(path) = stim_uds.as_ref() {
+            // a plain (not balanced) lazily connected channel to one unix-socket endpoint; reported as endpoint k1 in the trace
+            let ep = Endpoint::try_from(format!("unix://{path}")).unwrap();
+            log.ev(json!({"e":"env","op":"insert","key":"k1","srv":stim_uds_srv.clone(),"sent":true}));
+            (ep.connect_lazy(), None)
+        } else if let Some(list) = stim_list.as_ref() {
             let eps: Vec<Endpoint> = list.iter().map(|srv| { let port = sc.lock().unwrap().get(srv).map(|s| s.port).unwrap_or(1); Endpoint::from_shared(format!("http://127.0.0.1:{port}")).unwrap() }).collect();
             for (i, srv) in list.iter().enumerate() { log.ev(json!({"e":"env","op":"insert","key":format!("k{}", i + 1),"srv":srv,"sent":true})); }
             (Channel::balance_list(eps.into_iter()), None)
